@@ -12,7 +12,8 @@ for name in sorted(os.listdir(os.path.join(ROOT, 'seeded'))):
     d = os.path.join(ROOT, 'seeded', name)
     meta = json.load(open(os.path.join(d, 'meta.json')))
     prop = meta['property']
-    env = dict(os.environ, MUT_SLOT='3')
+    slot = os.environ.get('SEED_SLOT', '3')   # SEED_SLOT=n lets several sweeps run side by side
+    env = dict(os.environ, MUT_SLOT=slot)
     env.pop('MUT_BASE', None)
     head = subprocess.run(['git', '-C', '/repo', 'rev-parse', '--short', 'HEAD'], capture_output=True, text=True).stdout.strip()
     base = head
@@ -36,10 +37,10 @@ for name in sorted(os.listdir(os.path.join(ROOT, 'seeded'))):
         if key not in BASES:
             noop = os.path.join(ROOT, 'tools', 'noop.diff')
             r0 = subprocess.run([os.path.join(ROOT, 'tools', 'try_mutant.sh'), noop, prop, 'quick'], capture_output=True, text=True, env=env)
-            BASES[key] = set(re.findall(r'signature=(\S+)', open('/dev/shm/mutrun3/out.txt').read()))
+            BASES[key] = set(re.findall(r'signature=(\S+)', open('/dev/shm/mutrun%s/out.txt' % slot).read()))
         already = BASES[key]
     r = subprocess.run([os.path.join(ROOT, 'tools', 'try_mutant.sh'), os.path.join(d, 'patch.diff'), prop, 'quick'], capture_output=True, text=True, env=env)
-    out = open('/dev/shm/mutrun3/out.txt').read()
+    out = open('/dev/shm/mutrun%s/out.txt' % slot).read()
     if ' tier=quick ' not in out:
         # the check did not run to its summary (worktree not clean, patch rejected, build failure): not a result
         print(name, prop, 'NOT RUN:', (r.stdout + r.stderr).strip().split('\n')[-1][:200], flush=True)
